@@ -148,6 +148,10 @@ class Explorer:
         p = self.path
         if key in p.decided:
             return p.decided[key] == pol
+        from . import scalars as _sc0
+
+        if _sc0.REG is self.reg:
+            _sc0.threshold_lemmas(key)
         i = len(p.decisions)
         if i < len(self.schedule):
             v = self.schedule[i]
